@@ -17,9 +17,9 @@ Proof. unfold rr_pick. simpl. auto. Qed.
 Lemma ta_next_lists nlrf up p it : 
   pk (snd (ta_next nlrf up p it)) = pk p /\ plists (snd (ta_next nlrf up p it)) = plists p.
 Proof.
-  unfold ta_next. destruct (ta_phase1 (pk p) nlrf up (ti_reps it) (ti_remote it)) as [x rest remote|remote|rest remote];
-    [simpl; auto| |simpl; auto].
-  destruct (if nlrf then ta_phase2 up remote else P2Done remote) as [x rem|rem]; [simpl; auto|].
+  unfold ta_next. destruct (ta_phase1 (pk p) nlrf up (ti_used it) (ti_reps it) (ti_remote it)) as [x rest remote|remote];
+    [simpl; auto|].
+  destruct (if nlrf then ta_phase2 up (ti_used it) remote else P2Done remote) as [x rem|rem]; [simpl; auto|].
   destruct (ti_fb it) as [fb|].
   - destruct (ta_phase3 up (ti_used it) fb (S (rr_size fb))) as [[o fb'] used']. simpl. auto.
   - pose proof (rr_pick_lists p) as H. destruct (rr_pick p) as [fb q]. simpl in H.
@@ -43,6 +43,7 @@ Proof.
     { intros s1 o1. pose proof (rr_pick_lists (s_pol s)) as [H1 H2]. destruct (rr_pick (s_pol s)) as [r p'].
       intros H. inversion H; subst. cbn [s_pol]. eapply pol_inv_same_lists; eauto. }
     destruct q as [|ht primary order]; [apply Hrr|]. destruct (c_ta c); [|apply Hrr].
+    destruct (ta_replicas ht primary order); [|apply Hrr].
     intros H. inversion H; subst. exact Hp.
   - destruct (find_iter n (s_iters s)) as [[r|t]|]; [| |discriminate].
     + destruct (rr_next (s_up s) r). intros H. inversion H; subst. exact Hp.
@@ -80,6 +81,7 @@ Proof.
       { intros s2 o2. pose proof (rr_pick_lists (s_pol s)) as [H1 H2]. destruct (rr_pick (s_pol s)) as [r p'].
         intros H. inversion H; subst. exact H1. }
       destruct q as [|ht primary order]; [eapply Hrr; eauto|]. destruct (c_ta c); [|eapply Hrr; eauto].
+      destruct (ta_replicas ht primary order); [|eapply Hrr; eauto].
       inversion E; subst. reflexivity.
     + destruct (find_iter n (s_iters s)) as [[r|t]|]; [| |discriminate].
       * destruct (rr_next (s_up s) r). inversion E; subst. reflexivity.
@@ -118,25 +120,23 @@ Qed.
 
 (* ---- composed: a Pick of a token-aware policy in any reachable state --------------------------------- *)
 Lemma ta_reachable_offers c ls s outs up rs :
-  run c (sys_init c) ls = Some (s, outs) -> id_functional (hosts_of ls) -> ctr_in_range (s_pol s) ->
-  (c_nlrf c = true -> no_gap (far_tiers (c_kind c) rs)) ->
+  run c (sys_init c) ls = Some (s, outs) -> ctr_in_range (s_pol s) ->
   let p := s_pol s in
   let k := c_kind c in
   let offered := spec_ta up (host_tier k) (max_tier k) (c_nlrf c) rs (plists p) (Z.to_nat (pctr p + 2)) in
-  (exists st', yields (ta_step (c_nlrf c) up) (ta_pick k (c_nlrf c) (map Some rs), p) offered st'
+  (exists st', yields (ta_step (c_nlrf c) up) (ta_pick k (c_nlrf c) rs, p) offered st'
                /\ forall up', ta_step (c_nlrf c) up' st' = (Nil, st'))
   /\ only_up up offered
-  /\ (NoDup (map hid rs) -> no_host_twice offered)
+  /\ no_host_twice offered
   /\ complete up (concat (plists p)) offered
   /\ complete up (in_tier (host_tier k) 0 rs) offered
   /\ (c_nlrf c = true -> complete up rs offered).
 Proof.
-  intros Hrun Hid Hr Hg. destruct (reachable_pol_inv _ _ _ _ Hrun) as [Hinv Hk]. cbn zeta.
-  assert (Hnd : NoDup (map hid (concat (plists (s_pol s))))) by (eapply pol_inv_nodup; eauto).
+  intros Hrun Hr. destruct (reachable_pol_inv _ _ _ _ Hrun) as [Hinv Hk]. cbn zeta.
   split.
-  - destruct (ta_sequence_lemma (c_nlrf c) up (s_pol s) rs Hr) as [rem [used [Hy Hst]]].
-    rewrite ta_seq_spec in Hy; [|assumption | rewrite Hk; assumption]. rewrite Hk in Hy, Hst. eexists. split; [exact Hy | exact Hst].
-  - split; [apply spec_ta_only_up|]. split; [intros Hrs; apply spec_ta_no_host_twice; assumption|].
+  - destruct (ta_sequence_lemma (c_nlrf c) up (s_pol s) rs Hr) as [used [Hy Hst]].
+    rewrite ta_seq_spec in Hy. rewrite Hk in Hy, Hst. eexists. split; [exact Hy | exact Hst].
+  - split; [apply spec_ta_only_up|]. split; [apply spec_ta_no_host_twice|].
     pose proof (spec_ta_complete up (host_tier (c_kind c)) (max_tier (c_kind c)) (c_nlrf c) rs (plists (s_pol s))
                                  (Z.to_nat (pctr (s_pol s) + 2))) as [C1 [C2 C3]].
     split; [exact C1|]. split; [exact C2|]. intros Hn. apply C3; [assumption|]. intros h _. apply host_tier_le_max.
@@ -158,6 +158,7 @@ Proof.
                   find_iter n (s_iters s1) = find_iter n (s_iters s)).
     { intros s1 o1. destruct (rr_pick (s_pol s)) as [r p']. intros H1. inversion H1; subst. cbn [s_iters find_iter]. rewrite Hm. reflexivity. }
     destruct q as [|ht primary order]; [eapply Hrr; eauto|]. destruct (c_ta c); [|eapply Hrr; eauto].
+    destruct (ta_replicas ht primary order); [|eapply Hrr; eauto].
     inversion H; subst. cbn [s_iters find_iter]. rewrite Hm. reflexivity.
   - assert (Hm : (n =? m)%nat = false) by (apply Nat.eqb_neq; intros ->; apply Hn; reflexivity).
     destruct (find_iter m (s_iters s)) as [[r|t]|]; [| |discriminate].
